@@ -242,7 +242,7 @@ cdef class CJokerHelper:
                 self.max_K = dist._max_K.to_value(to_unit)
                 self.mu[i] = mu
 
-            elif name == 'v0':
+            elif name == 'K' or name == 'v0':
                 self.Lambda[i] = std ** 2
                 self.mu[i] = mu
 
